@@ -115,6 +115,8 @@ def rand_path(rng):
 
 
 def pogo_blob(rng):
+    if rng.random() < 0.08:
+        return rng.choice([b"", b"L", b"LT", b"LTC"])          # shorter than the signature dword
     out = rng.choice([b"LTCG", b"PGU\0", b"\0\0\0\0", b"PGI\0"])
     nrec = rng.choice([0, 1, 2, 3, 5, 9])
     for i in range(nrec):
